@@ -438,7 +438,11 @@ def r10_3(ctx, prog, crate):
                     okc = cnt == add(c0, ("int", 1))
                     added = add(sz, s0, -1) if sz is not None else None
                     ops.append((c[1][1], added, bool(okc and sz is not None), c))
-            ok = len(ops) == 1 and ops[0][2] and ops[0][1] == opsize
+            sizes_ok = {opsize}
+            if opname == "realloc":
+                # |new - old| spelled by the std helper (symmetric in its operands)
+                sizes_ok |= {("call", "core::num::abs_diff", (("arg", 3, ()), ("arg", 2, ()))), ("call", "core::num::abs_diff", (("arg", 2, ()), ("arg", 3, ())))}
+            ok = len(ops) == 1 and ops[0][2] and ops[0][1] in sizes_ok
             if ok:
                 o = ops[0][0]
                 if opname == "realloc":
